@@ -36,6 +36,8 @@ def make_plan(seed: int, tier: str, opts: dict) -> dict:
                 st = {f: {n_: r.random() < 0.5 for n_ in names_} for f in FIELDS}
                 st["max_records"] = {n_: r.choice([20000, 20000, 4, 2]) for n_ in names_}
         ep["record_settings"] = st
+        if j > 0 and r.random() < opts.get("mid_record_p", 0.2):
+            ep["mid_record"] = r.randrange(1, max(2, ep["nsteps"]))  # the user also fetches the record in the middle of the episode
         settings.append(st)
     wall = r.random() < opts.get("wall_p", 0.15)
     if wall:
@@ -114,6 +116,52 @@ def _row_vs_event(rec_steps, k, ev, input_names, settings, shift: float = 0.0, t
     return None
 
 
+def _msglog_vs_events(rec_node, node, ni, K_, ev_idx, eps_id, wall: bool):
+    """The per-connection message log of a node record against what the node's steps actually received (probe trace).
+    Every message a recorded step saw must be listed with the same send/receive time, under the step that first received it (seq_in);
+    the log is in sending order and lists nothing for steps beyond the last recorded one. Returns (violation or None, messages checked)."""
+    checked = 0
+    last = int(onp.asarray(rec_node.steps.seq)[-1]) if K_ else -1
+    for j, iname in enumerate(sorted(node.inputs.keys())):
+        out = node.inputs[iname].output_node.name
+        ir = (rec_node.inputs or {}).get(out)
+        if ir is None or ir.messages is None:
+            return dict(what="no message log for a connected input", input=iname), checked
+        m = ir.messages
+        so = onp.asarray(m.seq_out).astype(int).reshape(-1)
+        si = onp.asarray(m.seq_in).astype(int).reshape(-1)
+        sent = probes._fbits(onp.asarray(m.ts_sent, dtype=onp.float32).reshape(-1))
+        recv = probes._fbits(onp.asarray(m.ts_recv, dtype=onp.float32).reshape(-1))
+        if len(so) > 1 and onp.any(onp.diff(so) <= 0):
+            return dict(what="message log is not in sending order (or lists a message twice)", input=iname, seq_out=so.tolist()[:12]), checked
+        if len(si) and int(si.max()) > last:
+            return dict(what="message log lists a message for a step beyond the last recorded step", input=iname, seq_in=int(si.max()), last_step=last), checked
+        row = {int(q): i for i, q in enumerate(so)}
+        seen = set()
+        for k in range(K_):
+            ev = ev_idx.get((ni, eps_id, k))
+            if ev is None:
+                continue
+            w = ev["inputs"][j]
+            for p_, q in enumerate(w["seq"]):
+                if q < 0:
+                    continue
+                i = row.get(q)
+                if i is None:
+                    return dict(what="a message the step received is missing from the message log", input=iname, tick=k, seq_out=q, log_len=len(so)), checked
+                checked += 1
+                if q not in seen:
+                    seen.add(q)
+                    if int(si[i]) != k:
+                        return dict(what="seq_in of a logged message is not the step that first received it", input=iname, seq_out=q, seq_in=int(si[i]), first_seen_by=k), checked
+                for f, got, act in (("ts_sent", sent[i], w["sent"][p_]), ("ts_recv", recv[i], w["recv"][p_])):
+                    if got != act:
+                        a_, b_ = (float(onp.asarray([v], dtype=onp.uint32).view(onp.float32)[0]) for v in (got, act))
+                        if not (wall and abs(a_ - b_) <= 2e-6):
+                            return dict(what=f"{f} of a logged message differs from what the step received", input=iname, seq_out=q, tick=k, recorded=a_, actual=b_), checked
+    return None, checked
+
+
 def run_plan(plan: dict, replay=None) -> dict:
     import jax
 
@@ -130,12 +178,12 @@ def run_plan(plan: dict, replay=None) -> dict:
         return res
     if ro.status != "ok":
         res.update(common.summarise(ro, plan))
-        res.update(status="precondition_failed", detail=f"episode did not complete ({ro.status}: {ro.detail[:300]})", decisions=ro.decisions, widths=ro.widths)
+        res.update(status="precondition_failed", detail=f"episode did not complete ({ro.status}: {ro.detail[-700:]})", decisions=ro.decisions, widths=ro.widths)
         return res
     nodes = ro.nodes
     wall = plan.get("clock") == "wall"
     viol = []
-    rows_checked = variants = truncated = unavailable = 0
+    rows_checked = variants = truncated = unavailable = msgs_checked = 0
     ref = ro.episodes[0]
     ref_ev, _ = index_events(ref.trace)
     for j, eo in enumerate(ro.episodes):
@@ -174,9 +222,13 @@ def run_plan(plan: dict, replay=None) -> dict:
                 truncated += 1
                 if K_ > st["max_records"]:
                     viol.append(dict(clause="c13-truncation-keeps-at-most-max_records", signature="c13-trunc", variant=j, node=n, rows=K_, max_records=st["max_records"]))
-                if K_ < min(st["max_records"], n_exec):
+                if K_ < min(st["max_records"], n_exec) and eo.mid_record is None:  # (a record fetched mid-episode is a snapshot of that moment)
                     viol.append(dict(clause="c13-truncation-keeps-the-first-max_records-rows", signature="c13-trunc", variant=j, node=n, rows=K_, executed=n_exec, max_records=st["max_records"]))
             input_names = sorted(nodes[n].inputs.keys())
+            mv, mc = _msglog_vs_events(r_, nodes[n], names.index(n), K_, ev_idx, eo.plan["eps_id"], wall)
+            msgs_checked += mc
+            if mv is not None:
+                viol.append(dict(clause="c13-message-log-differs-from-what-the-steps-received", signature="c13-msglog", variant=j, node=n, **mv))
             for k in range(K_):
                 ev = ev_idx.get((names.index(n), eo.plan["eps_id"], k))
                 if ev is None:
@@ -244,7 +296,7 @@ def run_plan(plan: dict, replay=None) -> dict:
                                      compile=cc))
                     break
         jax.clear_caches()
-    res.update(common.summarise(ro, plan, extra_sums=dict(rows_checked_threaded=rows_checked, rows_checked_compiled=c_rows, setting_variants=variants, truncated_records=truncated, record_unavailable=unavailable, wall_clock_runs=1 if wall else 0,
+    res.update(common.summarise(ro, plan, extra_sums=dict(rows_checked_threaded=rows_checked, logged_messages_checked=msgs_checked, rows_checked_compiled=c_rows, setting_variants=variants, truncated_records=truncated, record_unavailable=unavailable, wall_clock_runs=1 if wall else 0,
                                                        ts_shifting_nodes=sum(1 for nd in spec["nodes"] if nd.get("ts_shift")))))
     res["dicts"]["fault_counts"]["truncate_record"] = truncated
     if viol:
